@@ -92,7 +92,13 @@ void runClient(Client& c) {
         int prevTok = c.tok[f];
         // a call that is still running is completed first (start() would join it anyway): its state is judged with the
         // abort requests made for it, then the request flag starts afresh for the new call
-        if (c.started[f]) { if (f == 0) c.fv->join(); else if (f == 1) c.fi->join(); else c.fs->join(); checkDone(c, f, "join()"); if (op->a[3] % 7 == 0) ctx_restartWithoutJoin = true; }
+        // ... in one case out of three; otherwise the future is started again without a join in between and start() itself has to
+        // wait for the previous call (its own join): the check below and the next join / conversion / destructor judge that
+        // (the zero-argument overloads get their token through a per-client variable that the new start overwrites: the previous call
+        // has to be over before that, so these always join first)
+        bool viaVariable = (f == 0 && ((arg / 3) % 12 == 0 || (arg / 3) % 12 == 8)) || (f == 1 && ((arg / 3) % 12 == 2 || (arg / 3) % 12 == 7));
+        if (c.started[f] && (op->a[3] % 3 == 0 || viaVariable)) { if (f == 0) c.fv->join(); else if (f == 1) c.fi->join(); else c.fs->join(); checkDone(c, f, "join()"); }
+        else if (c.started[f]) { ctx_restartWithoutJoin = true; vs::childLabel("restart_without_join"); }
         c.abortReq[f] = false;
         if (f == 0) {
           int variant = (int)((arg / 3) % 12);
